@@ -455,6 +455,90 @@ def check_dh_split(ctx) -> None:
         ctx.check(norm(s.index) == 'current_index', 'F8', f'calc_util_factor/index@{s.line}', f'{rel}:{s.line}', 'split stored at another index')
 
 
+def check_shared_storage(ctx) -> None:
+    """F9: `A.value = B.value` makes two reported series one array.  Any later in-place store to either (element, slice or mask
+    assignment, augmented assignment) changes the other as well - clipping one side of a balance silently clips the other."""
+    repo = ctx.repo
+    n = 0
+    for f in repo.all_functions():
+        if f.cls is None or not f.cls.name.startswith('SurfacePlant') or f.name != 'Calculate' or f.cls.name in ('SurfacePlantAGS',):
+            continue
+        n += 1
+        pairs = []
+        for st in ast.walk(f.node):
+            if isinstance(st, ast.Assign) and len(st.targets) == 1 and isinstance(st.targets[0], ast.Attribute) and st.targets[0].attr == 'value' \
+                    and isinstance(st.value, ast.Attribute) and st.value.attr == 'value':
+                pairs.append((norm(st.targets[0]), norm(st.value), st))
+        bad = []
+        for a, b, st0 in pairs:
+            for st in ast.walk(f.node):
+                if getattr(st, 'lineno', 0) <= st0.lineno:
+                    continue
+                tg = None
+                if isinstance(st, ast.Assign) and isinstance(st.targets[0], ast.Subscript):
+                    tg = st.targets[0].value
+                elif isinstance(st, ast.AugAssign):
+                    tg = st.target.value if isinstance(st.target, ast.Subscript) else st.target
+                if tg is not None and norm(tg) in (a, b):
+                    # a re-binding `A.value = <new array>` in between ends the sharing
+                    rebound = any(isinstance(x, ast.Assign) and norm(x.targets[0]) in (a, b) and x is not st0 and st0.lineno < x.lineno < st.lineno
+                                  for x in ast.walk(f.node))
+                    if not rebound:
+                        bad.append((a, b, st0, st))
+        key = f'{f.qualname}/no-in-place-store-on-shared-series'
+        if bad:
+            a, b, st0, st = bad[0]
+            ctx.bad('F9', key, f'{f.module.rel}:{st.lineno}',
+                    f'`{norm(st)[:90]}` modifies in place an array that `{norm(st0)}` (line {st0.lineno}) made the storage of both {a} and {b}: '
+                    f'the other series (and every annual total and balance computed from it) changes with it')
+        else:
+            ctx.ok('F9', key, f.where, f'{len(pairs)} shared series, none stored to in place')
+    ctx.floor('F9', n, 6, 'surface plant Calculate functions')
+
+
+def check_sutra_plant(ctx) -> None:
+    """F10: thermal storage plant: total heat supplied = heat from storage + auxiliary heat at every step, and each annual series sums its
+    own step series over the same window with the same factor."""
+    repo = ctx.repo
+    if not repo.has_module('geophires_x/SurfacePlantSUTRA.py'):
+        return
+    f = repo.method('SurfacePlantSUTRA', 'Calculate', 'geophires_x/SurfacePlantSUTRA.py')
+    rel = f.module.rel
+    defs = {}
+    for st in f.node.body:
+        if isinstance(st, ast.Assign) and isinstance(st.targets[0], ast.Attribute) and st.targets[0].attr == 'value':
+            defs[norm(st.targets[0])] = st
+    need = ['self.HeatProduced.value', 'self.AuxiliaryHeatProduced.value', 'self.TotalHeatProduced.value']
+    for k in need:
+        ctx.require(k in defs, f'SurfacePlantSUTRA.Calculate: `{k}` is not assigned at the top level (idiom changed)')
+    tr = Translator(wrappers='opaque')
+    try:
+        hp, ax, tot = (tr.tr(defs[k].value) for k in need)
+    except Unsupported as e:
+        raise AnalysisError(f'SurfacePlantSUTRA.Calculate: outside the supported algebra: {e}')
+    ctx.check(tot.equals(hp + ax), 'F10', 'SurfacePlantSUTRA.Calculate/total=storage+auxiliary', f'{rel}:{defs[need[2]].lineno}',
+              f'total heat supplied is `{tot.show(6)}`, not heat produced from storage + auxiliary heat (`{(hp + ax).show(6)}`): the charging '
+              f'steps (negative storage flow) or another series enter the total', fact='TotalHeatProduced = HeatProduced + AuxiliaryHeatProduced')
+    # the series named "produced"/"injected" are the positive / negative part of the simulated flow
+    loops = [n for n in f.node.body if isinstance(n, ast.For)]
+    ctx.require(len(loops) >= 1, 'SurfacePlantSUTRA.Calculate: annual loop not found')
+    n = 0
+    shapes = {}
+    for st in loops[0].body:
+        if isinstance(st, ast.Assign) and isinstance(st.targets[0], ast.Subscript) and norm(st.targets[0].value).startswith('self.Annual'):
+            tgt = norm(st.targets[0].value)                      # self.AnnualX.value
+            base = tgt.replace('self.Annual', 'self.', 1)
+            srcs = [norm(a) for a in ast.walk(st.value) if isinstance(a, ast.Attribute) and a.attr == 'value' and norm(a).startswith('self.')
+                    and 'SUTRATimeStep' not in norm(a)]
+            n += 1
+            ctx.check(srcs == [base], 'F10', f'SurfacePlantSUTRA.Calculate/{tgt}/sums-its-own-series', f'{rel}:{st.lineno}',
+                      f'{tgt}[i] is computed from {srcs}, not from its own step series {base}', fact=f'sum of {base}')
+            shapes[tgt] = norm(st.value).replace(base, 'S')
+    ctx.floor('F10', n, 4, 'annual storage-plant series')
+    ctx.check(len(set(shapes.values())) == 1, 'F10', 'SurfacePlantSUTRA.Calculate/annual-series-same-window-and-factor', f'{rel}:{loops[0].lineno}',
+              f'the annual series do not use one window and factor: {sorted(set(shapes.values()))[:3]}', fact='same slice and factor for all annual series')
+
+
 def run(ctx) -> None:
     ctx.rule('F1', 'heat extracted = wells x flow per well x cp x (production - injection temperature) / 1e6 in all 5 definitions, and the '
                    'shared function is called with the reported attributes (after the plant\'s reinjection override)')
@@ -473,5 +557,9 @@ def run(ctx) -> None:
     check_integrator(ctx)
     check_heat_plants(ctx)
     check_dh_split(ctx)
-    ctx.undecided('trapezoid accuracy and np.interp behaviour', 'CoolProp property values', 'SUTRA/AGS plants (own model families)')
+    ctx.rule('F9', 'no in-place store to a series that shares its array with another reported series')
+    ctx.rule('F10', 'thermal-storage plant: total = storage + auxiliary at every step; annual series sum their own step series, same window and factor')
+    check_shared_storage(ctx)
+    check_sutra_plant(ctx)
+    ctx.undecided('trapezoid accuracy and np.interp behaviour', 'CoolProp property values', 'AGS plant (own model family, not runnable offline)')
     ctx.assume('np.trapz and np.add.accumulate are linear')
